@@ -177,11 +177,17 @@ static const PmcConfig CFG[] = {
     {"R0n:N|L",                  3, {1,2}, {0,0}, {0,0}, {0,0}, "recursive mutex, nested lock"},
     {"m0n:L|L|L",                2, {1,2}, {0,0}, {0,0}, {0,0}, "three vCPUs"},
     {"m0n:H|T:tdev",             3, {1,2}, {1,1}, {0,0}, {2,3}, "the owner sleeps while holding: the timed waiter is queued when the unlock runs; its deadline may pass inside unlock()"},
-    {"m0n:H|T,T:tdev",           3, {1,1}, {1,1}, {0,0}, {2,2}, ""},
+    {"m0n:H|T,T:tdev",           2, {1,1}, {1,1}, {0,0}, {2,2}, ""},
     {"m0n:H|L,i1",               3, {1,2}, {0,0}, {0,0}, {0,0}, "... or the waiter is interrupted inside unlock()"},
     {"m0c:H|T:tdev",             2, {1,2}, {1,1}, {0,0}, {2,3}, ""},
-    {"m0c:gen2x2",               3, {0,0}, {0,0}, {0,0}, {0,0}, "contending mode (unlock clears the owner; a woken waiter may find the mutex taken again and must go back to waiting)"},
     {"m0c:pLL,pL,pL",            3, {0,0}, {0,0}, {0,0}, {0,0}, ""},
+    {"m0n:L|L:tso",              3, {1,2}, {0,0}, {1,1}, {2,3}, "x86-TSO: one store per thread may linger in the store buffer"},
+    {"m0c:L|L:tso",              3, {1,2}, {0,0}, {1,1}, {2,3}, ""},
+    {"m0n:L|L:plain",            3, {1,2}, {0,0}, {0,0}, {0,0}, "plain accesses to the mutex object (wait queue links) are scheduling points too"},
+    {"m0n:H|T:tdev,plain",       2, {1,1}, {1,1}, {0,0}, {2,2}, ""},
+    {"m0n:L|L,i0:tso",           2, {1,1}, {0,0}, {1,1}, {2,2}, ""}, 
+    // generated programs last: they take whatever budget the configs above leave
+    {"m0c:gen2x2",               3, {0,0}, {0,0}, {0,0}, {0,0}, "contending mode (unlock clears the owner; a woken waiter may find the mutex taken again and must go back to waiting)"},
     {"m0n:gen3x1:tdev",          3, {0,0}, {0,1}, {0,0}, {0,0}, "generated: every 3-thread program, one op each from {L,T,Z,Y,i0,i1,i2}, every arrival order"},
     {"m0n:gen2x2",               3, {0,0}, {0,0}, {0,0}, {0,0}, "generated: 2 threads x up to 2 ops"},
     {"m0n:gen3x2",               2, {0,0}, {0,0}, {0,0}, {0,0}, "generated: 3 threads x up to 2 ops"},
@@ -189,11 +195,6 @@ static const PmcConfig CFG[] = {
     {"R0n:gen2x2",               3, {0,0}, {0,0}, {0,0}, {0,0}, "recursive mutex"},
     {"R0n:gen3x2",               2, {0,0}, {0,0}, {0,0}, {0,0}, "recursive mutex"},
     {"m0n:gen2x3+:tdev",         2, {0,0}, {1,1}, {0,0}, {0,0}, ""},
-    {"m0n:L|L:tso",              3, {1,2}, {0,0}, {1,1}, {2,3}, "x86-TSO: one store per thread may linger in the store buffer"},
-    {"m0c:L|L:tso",              3, {1,2}, {0,0}, {1,1}, {2,3}, ""},
-    {"m0n:L|L:plain",            3, {1,2}, {0,0}, {0,0}, {0,0}, "plain accesses to the mutex object (wait queue links) are scheduling points too"},
-    {"m0n:H|T:tdev,plain",       2, {1,1}, {1,1}, {0,0}, {2,2}, ""},
-    {"m0n:L|L,i0:tso",           2, {1,1}, {0,0}, {1,1}, {2,2}, ""}, 
 };
 const PmcConfig* pmc_configs(int* n) { *n = sizeof CFG / sizeof CFG[0]; return CFG; }
 const char* pmc_property(void) { return "C01"; }
